@@ -58,6 +58,13 @@ def run(ctx: Ctx) -> None:
     rust_taint(ctx, rs)
     rust_bookkeeping_readers(ctx, rs)
     python_state(ctx, py)
+    pce500_bookkeeping(ctx, py)
+    from ..memo import memo_findings
+    fn = py.func(isa.EMU_PY, "Emulator.decode_instruction")
+    for ln, what in memo_findings(py.module(isa.EMU_PY), fn, ("address",), True):
+        ctx.violation("C07.3/decode-memo", key_of(isa.EMU_PY, "Emulator.decode_instruction", "decoded instruction remembered across steps"),
+                      what + " - a long run and a fresh run from the same memory execute different instructions", f"{isa.EMU_PY}:{ln}")
+    ctx.instance("C07.3/decode-memo", "the emulator fetch decodes from memory on every step (no instruction memo)", 1, 1)
 
 
 # ---------------------------------------------------------------------------
@@ -334,3 +341,63 @@ def python_state(ctx: Ctx, py: PyProgram) -> None:
             n += 1
     ctx.instance("C07.3/python-state", "mutable module state / call_sub_level uses on the Python execute path", n, 4)
     ctx.sample({"mutable_module_globals": sorted(mutable)})
+
+
+PCE500_EMU = "pce500/emulator.py"
+BOOKKEEPING_ATTRS = {"call_depth", "call_sub_level", "_call_stack", "call_stack", "instruction_count", "_instr_index"}
+
+
+def pce500_bookkeeping(ctx: Ctx, py: PyProgram) -> None:
+    """Call-depth / instruction-count bookkeeping of the machine emulator may be traced, saved and updated, but must not decide anything:
+    no branch condition and no other field may depend on it."""
+    ctx.file_used(REPO / PCE500_EMU)
+    mod = py.module(PCE500_EMU)
+    cls = py.need_cls(mod, "PCE500Emulator")
+    n = 0
+
+    def is_book(node: ast.AST) -> bool:
+        return isinstance(node, ast.Attribute) and node.attr in ("call_depth", "call_sub_level")
+
+    for name, fn in cls.methods.items():
+        parents: dict[int, ast.AST] = {}
+        for p in ast.walk(fn):
+            for c in ast.iter_child_nodes(p):
+                parents[id(c)] = p
+        reads: list[ast.AST] = [x for x in ast.walk(fn) if is_book(x) and isinstance(x.ctx, ast.Load)]
+        # getattr(obj, "call_sub_level", 0)
+        reads += [x for x in ast.walk(fn) if isinstance(x, ast.Call) and unparse(x.func) == "getattr" and len(x.args) > 1 and isinstance(x.args[1], ast.Constant) and x.args[1].value in ("call_depth", "call_sub_level")]
+        tracked_locals: set[str] = set()
+        work = list(reads)
+        seen: set[int] = set()
+        while work:
+            x = work.pop()
+            if id(x) in seen:
+                continue
+            seen.add(id(x))
+            n += 1
+            # climb to the statement, noting whether we pass through a test position
+            cur, in_test = x, False
+            while id(cur) in parents and not isinstance(parents[id(cur)], ast.stmt):
+                par = parents[id(cur)]
+                if isinstance(par, ast.IfExp) and par.test is cur:
+                    in_test = True
+                if isinstance(par, ast.comprehension) and cur in par.ifs:
+                    in_test = True
+                cur = par
+            st = parents.get(id(cur))
+            if isinstance(st, (ast.If, ast.While)) and st.test is cur or isinstance(st, ast.Assert) and st.test is cur:
+                in_test = True
+            if in_test:
+                ctx.violation("C07.3/bookkeeping-decides", key_of(PCE500_EMU, f"PCE500Emulator.{name}", "call-depth bookkeeping in a condition"),
+                              f"PCE500Emulator.{name}: `{unparse(cur)[:80]}` tests call-depth bookkeeping: two machines equal in registers, memory and timers but different in call history diverge", f"{PCE500_EMU}:{x.lineno}")
+                continue
+            if isinstance(st, (ast.Assign, ast.AugAssign, ast.AnnAssign)):
+                tgts = st.targets if isinstance(st, ast.Assign) else [st.target]
+                for t in tgts:
+                    if isinstance(t, ast.Attribute) and not is_book(t):
+                        ctx.violation("C07.3/bookkeeping-decides", key_of(PCE500_EMU, f"PCE500Emulator.{name}", f"call-depth bookkeeping stored in {unparse(t)}"),
+                                      f"PCE500Emulator.{name}: `{unparse(st)[:90]}` copies call-depth bookkeeping into machine state `{unparse(t)}`", f"{PCE500_EMU}:{x.lineno}")
+                    elif isinstance(t, ast.Name) and t.id not in tracked_locals:
+                        tracked_locals.add(t.id)
+                        work += [y for y in ast.walk(fn) if isinstance(y, ast.Name) and y.id == t.id and isinstance(y.ctx, ast.Load)]
+    ctx.instance("C07.3/bookkeeping-decides", "reads of call-depth bookkeeping in the machine emulator: none in a condition, none stored into other machine state", n, 8)
